@@ -4,6 +4,7 @@
 mod c15;
 mod c16;
 mod c20;
+mod c20miri;
 #[cfg(feature = "shuttled")]
 mod c20conc;
 mod coord;
@@ -137,7 +138,15 @@ fn real_main() -> i32 {
                 if p.id == "C20" {
                     let post = |seed: u64, tier: Tier| -> Result<histcheck::PostPass, String> {
                         let r = c20conc::pass(seed, tier)?;
-                        Ok(histcheck::PostPass { exit: r.exit, violations: r.violations, name: "concurrent_pass", evidence: r.evidence })
+                        let mut evidence = r.evidence;
+                        let (mut exit, mut violations) = (r.exit, r.violations);
+                        if exit == 0 && std::env::var("VERIF_PROFILE_PASS").is_err() {
+                            let m = c20miri::pass(tier == Tier::Quick)?;
+                            evidence.insert("miri_pass".into(), serde_json::Value::Object(m.evidence));
+                            exit = m.exit;
+                            violations += m.violations;
+                        }
+                        Ok(histcheck::PostPass { exit, violations, name: "concurrent_pass", evidence })
                     };
                     return histcheck::check(p, tier, Some(&post));
                 }
@@ -202,6 +211,9 @@ fn real_main() -> i32 {
             };
             let parsed = serde_json::from_str::<serde_json::Value>(&text).ok();
             let prop = parsed.as_ref().and_then(|v| v["property"].as_str().map(String::from)).unwrap_or_default();
+            if parsed.as_ref().map_or(false, |v| v["kind"].as_str() == Some("miri")) {
+                return c20miri::replay_file(path, expect);
+            }
             if parsed.as_ref().map_or(false, |v| v["kind"].as_str() == Some("concurrent")) {
                 #[cfg(feature = "shuttled")]
                 return c20conc::replay_file(path, expect);
